@@ -283,6 +283,28 @@ Theorem C12_root_step : forall (fx fy ft : val R) (tol : R) (I D : R -> R),
                             (VFloat y) (VFloat yh) (VFloat yl) yp).
 Proof. intros. apply loop_good with (D := D); assumption. Qed.
 
+(* [ideal] PROGRESS of the repaired fallback (commit edeb4b4): when the derivative is too small the next abscissa xn
+   is the secant point if that lies in the inner 80 % of the bracket and the midpoint otherwise, and whichever end it
+   replaces, the new bracket [xl', xh'] lies in the old one and is at most 90 % as wide - regula falsi can no longer
+   stall next to a double root.  (One iteration; this is not yet a termination proof: accepted Newton steps may
+   shrink the bracket arbitrarily little.) *)
+Theorem C12_root_progress : forall (fx fy ft : val R) (tol : R) (I D : R -> R),
+  let self := VObj cInterpolation [fx; fy; ft; VFloat tol] in
+  forall mi fuel ni x xh xl y yh yl yp,
+  xl <= xh -> tol < Rabs y -> yl * yh < 0 -> Z.geb ni mi = false ->
+  Interpolation_derivative Rops self (VFloat x) = VFloat (D x) -> Rabs (D x) < Rlit 1 (-3) ->
+  exists xn, (xl + Rlit 1 (-1) * (xh - xl) <= xn <= xh - Rlit 1 (-1) * (xh - xl)) /\
+    (Interpolation___call__ Rops self (VFloat xn) = VErr ValueError ->
+       root_loop self (VInt mi) (S fuel) (VInt ni) (VFloat x) (VFloat xh) (VFloat xl) (VFloat y) (VFloat yh) (VFloat yl) yp
+       = VErr ValueError) /\
+    (Interpolation___call__ Rops self (VFloat xn) = VFloat (I xn) ->
+       exists xl' xh' yl' yh',
+         root_loop self (VInt mi) (S fuel) (VInt ni) (VFloat x) (VFloat xh) (VFloat xl) (VFloat y) (VFloat yh) (VFloat yl) yp
+         = root_loop self (VInt mi) fuel (VInt (ni + 1)) (VFloat xn) (VFloat xh') (VFloat xl')
+                     (VFloat (I xn)) (VFloat yh') (VFloat yl') (VFloat (D x))
+         /\ xl <= xl' /\ xh' <= xh /\ xl' <= xh' /\ xh' - xl' <= (1 - Rlit 1 (-1)) * (xh - xl)).
+Proof. intros fx fy ft tol I D self. exact (fallback_progress fx fy ft tol I D). Qed.
+
 (* [ideal] the whole method, for max_iter in 0..4999 (the model's loop fuel is 5000; the default max_iter is
    1000): root(xl, xh) returns a float inside the interval asked for (limits put in order and clamped to the
    table) at which the interpolant is <= tol, or raises ValueError - nothing else.  Entry paths proved:
@@ -400,6 +422,7 @@ Redirect "C12_copy_any.assumptions" Print Assumptions C12_copy_any.
 Redirect "C12_duplicates_any.assumptions" Print Assumptions C12_duplicates_any.
 Redirect "C12_polynomial_any.assumptions" Print Assumptions C12_polynomial_any.
 Redirect "C12_root_step.assumptions" Print Assumptions C12_root_step.
+Redirect "C12_root_progress.assumptions" Print Assumptions C12_root_progress.
 Redirect "C12_root_sound.assumptions" Print Assumptions C12_root_sound.
 Redirect "C12_root_witness.assumptions" Print Assumptions C12_root_witness.
 Redirect "C12_root_any.assumptions" Print Assumptions C12_root_any.
